@@ -1,4 +1,4 @@
-(* GENERATED on every run by harness/props/c04.py from /tmp/refchk_C04_r2 - do not edit *)
+(* GENERATED on every run by harness/props/c04.py from /repo - do not edit *)
 From Coq Require Import List String Bool.
 Import ListNotations.
 Open Scope string_scope.
